@@ -31,6 +31,7 @@ const (
 	fQueryKeyword    = "C05-query-keyword-omitted"
 	fBlockBackslash  = "C05-block-string-leading-backslash"
 	fDescLoneCR      = "C05-description-lone-cr"
+	fInputValueName  = "C05-input-value-name-unchecked"
 	fImplementsIdent = "C05-implements-followed-by-definition"
 )
 
@@ -134,10 +135,11 @@ func nulInString(d *ast.Document) bool {
 		}
 		// regular string: the byte after the content must be the closing quote (or a line end /
 		// end of input, which the lexer also accepts); a NUL there is the defect. For a block
-		// string the NUL may also sit behind trimmed white space.
+		// string the lexer's end-of-input branch subtracts the white space it counted before
+		// trailing quotes, so the NUL may sit behind white space and quotes.
 		e := int(r.End)
 		if block {
-			for e < len(in) && isWS(in[e]) {
+			for e < len(in) && (isWS(in[e]) || in[e] == '"') {
 				e++
 			}
 		}
@@ -158,10 +160,11 @@ func nulInString(d *ast.Document) bool {
 
 // reBlockQuoteAdjacent: in the *input*, a quote or backslash touches a block-string delimiter
 // (white space aside): four or more quotes in a row, a quote before white space before """,
-// """ before white space before a quote, or a backslash (and white space) before """. The
+// """ before white space before a quote, or a backslash and white space before """ (without
+// white space it is the escape \"""; the escape followed by a quote is four quotes). The
 // recogniser deliberately looks at the input bytes and not at the parsed content, so that a
 // lexer that starts cutting block strings in the wrong place is not mistaken for this finding.
-var reBlockQuoteAdjacent = regexp.MustCompile(`"{4,}|"[ \t\r\n]+"""|"""[ \t\r\n]+"|\\[ \t\r\n]*"""`)
+var reBlockQuoteAdjacent = regexp.MustCompile(`"{4,}|"[ \t\r\n]+"""|"""[ \t\r\n]+"|\\[ \t\r\n]+"""`)
 
 // blockQuotesInDoc: the document has a block string and its input a quote/backslash next to a
 // block-string delimiter.
@@ -180,15 +183,16 @@ func blockTrimInDoc(d *ast.Document) bool {
 	return false
 }
 
+// reBlockLeadingBackslash: in the *input*, a block-string delimiter followed by white space and
+// quotes only and then a backslash. After a closing delimiter a backslash cannot start a token,
+// so in an accepted document this is an opening delimiter.
+var reBlockLeadingBackslash = regexp.MustCompile(`"""[ \t\r\n]*"*\\`)
+
 // blockBackslashInDoc: a block string with a backslash before its first character that is
-// neither white space nor a quote.
+// neither white space nor a quote (judged on the input bytes: the lexer then mis-places the
+// start of the content, so the parsed content cannot be trusted).
 func blockBackslashInDoc(d *ast.Document) bool {
-	for _, b := range blockLiterals(d) {
-		if b.clean && !b.extraQuote && blockBackslashClass(b.raw) {
-			return true
-		}
-	}
-	return false
+	return len(blockLiterals(d)) > 0 && reBlockLeadingBackslash.Match(d.Input.RawBytes)
 }
 
 // floatDanglingExponent: a float value whose literal ends in e/E. Such a literal is not a
@@ -201,6 +205,23 @@ func floatDanglingExponent(d *ast.Document) bool {
 			if c := in[f.Raw.End-1]; c == 'e' || c == 'E' {
 				return true
 			}
+		}
+	}
+	return false
+}
+
+var reAstparserName = regexp.MustCompile(`^[_A-Za-z][_0-9A-Za-z-]*$`)
+
+// inputValueNameNotAName: an argument / input field definition whose name is not an
+// identifier token (the parser takes whatever token follows a description as the name).
+func inputValueNameNotAName(d *ast.Document) bool {
+	in := d.Input.RawBytes
+	for _, iv := range d.InputValueDefinitions {
+		if iv.Name.Start > iv.Name.End || int(iv.Name.End) > len(in) {
+			continue
+		}
+		if iv.Description.IsDefined && !reAstparserName.Match(in[iv.Name.Start:iv.Name.End]) {
+			return true
 		}
 	}
 	return false
@@ -284,46 +305,53 @@ func queryKeywordNeededInDoc(d *ast.Document) bool {
 	return false
 }
 
+// pick returns the first candidate that is listed as a known finding, else the first
+// candidate ("" when there is none). Classes overlap (a block string can have a quote next to
+// its delimiter and trailing white space); once one of two overlapping findings is repaired the
+// remaining failures must still be attributed to the one that is left.
+func pick(candidates []string) string {
+	for _, c := range candidates {
+		if pbt.IsKnown(c) {
+			return c
+		}
+	}
+	if len(candidates) > 0 {
+		return candidates[0]
+	}
+	return ""
+}
+
 // classifyAccepted attributes a failure of kind k on an accepted document to a recorded
 // finding ("" when none explains it). diff is the shape difference text for kShape/kDiffer.
 func classifyAccepted(d *ast.Document, k string, diff string) string {
-	switch k {
-	case kReparse, kFix:
-		switch {
-		case nulInString(d):
-			return fNulInString
-		case blockQuotesInDoc(d):
-			return fBlockQuotes
-		case k == kReparse && schemaEmptyInDoc(d):
-			return fSchemaEmpty
-		case queryKeywordNeededInDoc(d):
-			return fQueryKeyword
-		case blockBackslashInDoc(d):
-			return fBlockBackslash
-		}
-	case kShape, kDiffer:
-		switch {
-		case nulInString(d):
-			return fNulInString
-		case strings.Contains(diff, "/schema") && strings.Contains(diff, "desc") && schemaDescInDoc(d):
-			return fSchemaDesc
-		case strings.Contains(diff, "/extend-") && strings.Contains(diff, "implements") && extImplementsInDoc(d):
-			return fExtImplements
-		case (strings.Contains(diff, "blockstring") || strings.Contains(diff, "desc")) && blockQuotesInDoc(d):
-			return fBlockQuotes
-		case (strings.Contains(diff, "blockstring") || strings.Contains(diff, "desc")) && blockBackslashInDoc(d):
-			return fBlockBackslash
-		case (strings.Contains(diff, "blockstring") || strings.Contains(diff, "desc")) && blockTrimInDoc(d):
-			return fBlockTrim
-		case strings.Contains(diff, "desc") && descLoneCRInDoc(d):
-			return fDescLoneCR
-		case strings.Contains(diff, "float") && floatDanglingExponent(d):
-			return fFloatExpSign
-		case queryKeywordNeededInDoc(d):
-			return fQueryKeyword
+	var c []string
+	add := func(cond bool, id string) {
+		if cond {
+			c = append(c, id)
 		}
 	}
-	return ""
+	switch k {
+	case kReparse, kFix:
+		add(nulInString(d), fNulInString)
+		add(blockQuotesInDoc(d), fBlockQuotes)
+		add(k == kReparse && schemaEmptyInDoc(d), fSchemaEmpty)
+		add(queryKeywordNeededInDoc(d), fQueryKeyword)
+		add(blockBackslashInDoc(d), fBlockBackslash)
+		add(inputValueNameNotAName(d), fInputValueName)
+	case kShape, kDiffer:
+		inBlock := strings.Contains(diff, "blockstring") || strings.Contains(diff, "desc")
+		add(nulInString(d), fNulInString)
+		add(strings.Contains(diff, "/schema") && strings.Contains(diff, "desc") && schemaDescInDoc(d), fSchemaDesc)
+		add(strings.Contains(diff, "/extend-") && strings.Contains(diff, "implements") && extImplementsInDoc(d), fExtImplements)
+		add(inBlock && blockQuotesInDoc(d), fBlockQuotes)
+		add(inBlock && blockBackslashInDoc(d), fBlockBackslash)
+		add(inBlock && blockTrimInDoc(d), fBlockTrim)
+		add(strings.Contains(diff, "desc") && descLoneCRInDoc(d), fDescLoneCR)
+		add(strings.Contains(diff, "float") && floatDanglingExponent(d), fFloatExpSign)
+		add(queryKeywordNeededInDoc(d), fQueryKeyword)
+		add(inputValueNameNotAName(d), fInputValueName)
+	}
+	return pick(c)
 }
 
 // ---- rejected spec-valid documents ----
@@ -332,17 +360,20 @@ func classifyAccepted(d *ast.Document, k string, diff string) string {
 var reFloatExpSign = regexp.MustCompile(`(^|[^0-9A-Za-z_.+\-])-?(0|[1-9][0-9]*)[eE][+-][0-9]+`)
 
 func classifyRejected(src string, feat map[string]bool) string {
-	switch {
-	case strings.HasPrefix(src, "\ufeff"):
-		return fBOM
-	case feat["float-exp-sign"] && reFloatExpSign.MatchString(src):
-		return fFloatExpSign
-	case feat["implements-without-body"] && identAfterInterfaceList([]byte(src)):
-		return fImplementsIdent
-	case feat["block-quote-class"] && strings.Contains(src, `\""""`):
-		return fBlockQuotes
+	var c []string
+	if strings.HasPrefix(src, "\ufeff") {
+		c = append(c, fBOM)
 	}
-	return ""
+	if feat["float-exp-sign"] && reFloatExpSign.MatchString(src) {
+		c = append(c, fFloatExpSign)
+	}
+	if feat["implements-without-body"] && identAfterInterfaceList([]byte(src)) {
+		c = append(c, fImplementsIdent)
+	}
+	if feat["block-quote-class"] && strings.Contains(src, `\""""`) {
+		c = append(c, fBlockQuotes)
+	}
+	return pick(c)
 }
 
 // identAfterInterfaceList: the token stream has `implements [&] Name (& Name)*` directly
@@ -478,15 +509,17 @@ func probes() pbt.Probes {
 			}
 			return ""
 		}},
-		fBlockQuotes:     {Input: `{ a(x: """a" """) }`, Fn: probeRoundTrip(`{ a(x: """a" """) }`)},
-		fBlockTrim:       {Input: "{ a(x: \"\"\"\n    a\n  b\n\"\"\") }", Fn: probeBlockTrim},
-		fNulInString:     {Input: "{ a(x: \"0\x00) }", Fn: probeRoundTrip("{ a(x: \"0\x00) }")},
-		fFloatExpSign:    {Input: `{ a(x: 1e-5) }`, Fn: probeRejected(`{ a(x: 1e-5) }`)},
-		fSchemaEmpty:     {Input: `schema { }`, Fn: probeRoundTrip(`schema { }`)},
-		fSchemaDesc:      {Input: `"d" schema { query: Q }`, Fn: probeRoundTrip(`"d" schema { query: Q }`)},
-		fExtImplements:   {Input: `extend type T implements A { a: Int }`, Fn: probeRoundTrip(`extend type T implements A { a: Int }`)},
-		fBOM:             {Input: "\ufeff{ a }", Fn: probeRejected("\ufeff{ a }")},
-		fQueryKeyword:    {Input: `query @d { a }`, Fn: probeRoundTrip(`query @d { a }`)},
+		// a quote before the closing delimiter, separated by a line break only (so that the value
+		// has no trailing white space and the input is outside the C05-block-string-trim class)
+		fBlockQuotes:   {Input: "{ a(x: \"\"\"a\"\n\"\"\") }", Fn: probeRoundTrip("{ a(x: \"\"\"a\"\n\"\"\") }")},
+		fBlockTrim:     {Input: "{ a(x: \"\"\"\n    a\n  b\n\"\"\") }", Fn: probeBlockTrim},
+		fNulInString:   {Input: "{ a(x: \"0\x00) }", Fn: probeRoundTrip("{ a(x: \"0\x00) }")},
+		fFloatExpSign:  {Input: `{ a(x: 1e-5) }`, Fn: probeRejected(`{ a(x: 1e-5) }`)},
+		fSchemaEmpty:   {Input: `schema { }`, Fn: probeRoundTrip(`schema { }`)},
+		fSchemaDesc:    {Input: `"d" schema { query: Q }`, Fn: probeRoundTrip(`"d" schema { query: Q }`)},
+		fExtImplements: {Input: `extend type T implements A { a: Int }`, Fn: probeRoundTrip(`extend type T implements A { a: Int }`)},
+		fBOM:           {Input: "\ufeff{ a }", Fn: probeRejected("\ufeff{ a }")},
+		fQueryKeyword:  {Input: `query @d { a }`, Fn: probeRoundTrip(`query @d { a }`)},
 		fDescLoneCR: {Input: "type T { \"\"\"\na\rb\n\"\"\" f: Int }", Fn: func() string {
 			in := "type T { \"\"\"\na\rb\n\"\"\" f: Int }"
 			d, ok := parseStr(in)
@@ -505,6 +538,7 @@ func probes() pbt.Probes {
 			}
 			return ""
 		}},
+		fInputValueName:  {Input: `type T { a("d" "": Int): Int }`, Fn: probeRoundTrip(`type T { a("d" "": Int): Int }`)},
 		fBlockBackslash:  {Input: "\"\"\"\\a\"\"\" type T { a: Int }", Fn: probeRoundTrip("\"\"\"\\a\"\"\" type T { a: Int }")},
 		fImplementsIdent: {Input: `type T implements A type U { a: Int }`, Fn: probeRejected(`type T implements A type U { a: Int }`)},
 	}
